@@ -37,6 +37,11 @@ static void arm_case_timer(bool on) {
   setitimer(ITIMER_VIRTUAL, &it, nullptr);
 }
 
+// Per-case leak check (LeakSanitizer, present in the asan variant only): a case that leaves unreachable heap memory behind fails.
+extern "C" int __lsan_do_recoverable_leak_check(void) __attribute__((weak));
+static bool g_leakcheck = true;
+static bool case_leaked() { return g_leakcheck && __lsan_do_recoverable_leak_check && __lsan_do_recoverable_leak_check() != 0; }
+
 static void dump_map(FILE *f, const char *name, const std::map<std::string, long> &m) {
   fprintf(f, "\"%s\":{", name); bool first = true;
   for (auto &kv : m) { fprintf(f, "%s\"%s\":%ld", first ? "" : ",", jesc(kv.first).c_str(), kv.second); first = false; }
@@ -60,10 +65,12 @@ static void dump_report(const char *path, bool ok, double wall) {
 
 int main(int argc, char **argv) {
   if (const char *e = getenv("VERIF_CASE_CPU_S")) g_case_cpu_s = atol(e);
+  if (const char *e = getenv("VERIF_LEAKCHECK")) g_leakcheck = atoi(e) != 0;
   signal(SIGVTALRM, on_vtalrm);
   if (argc >= 3 && !strcmp(argv[1], "--replay")) {
     std::vector<uint32_t> w; if (!tape_load(argv[2], w)) { fprintf(stderr, "cannot read %s\n", argv[2]); return 3; }
     Tape t(w); Report r; arm_case_timer(true); bool ok = prop_run(t, r); arm_case_timer(false);
+    if (ok && case_leaked()) { ok = r.fail("the case leaked heap memory (LeakSanitizer report above): a clear function did not release everything"); }
     if (ok) { printf("REPLAY property=%s HELD labels:", prop_id()); for (auto &kv : r.labels) printf(" %s=%ld", kv.first.c_str(), kv.second); printf("\n"); for (auto &s : r.samples) printf("  sample: %s\n", s.c_str()); return 0; }
     printf("REPLAY property=%s FAILS kind=%s: %s\n", prop_id(), r.fail_kind.c_str(), r.fail_msg.c_str());
     return r.fail_kind == "harness" ? 2 : 1;
@@ -91,6 +98,7 @@ int main(int argc, char **argv) {
       arm_case_timer(true);
       bool held = prop_run(t, *rp);
       arm_case_timer(false);
+      if (held && case_leaked()) held = rp->fail("the case leaked heap memory (LeakSanitizer report in the worker log): a clear function did not release everything");
       if (!held) {
         bool first = !g_failed_once;
         g_lastfail = w; g_lastmsg = rp->fail_msg; g_lastkind = rp->fail_kind; g_failed_once = true;
